@@ -152,6 +152,13 @@ def assignments_part(chk: Check, drv: Driver):
     texts += ["a(i) = a(i) + 1", "a(i) = b(a)", "a(i) = b(i) + b(i,j)", "a(i) = b(i) - b()", "a(i) = b(i,j) * c(j,b)", "a(a) = b(i)",
               "i(i) = b(i)", "a(i) = b(i) * i()", "a(i,i) = b(i,i)", "a(i) = b(b)", "a() = a()", "a(i) = b(i) + c(i) * a(i)"]
     texts.append("a() = " + "9" * 5000)
+    # deep nesting and long spines (the model's recursion fuel must cover them)
+    for d in (4, 5, 8, 20, 60):
+        texts.append("a(i) = " + "(" * d + "b(i)" + ")" * d)
+        texts.append("a() = " + "(" * d + "1" + ")" * d + " * 2")
+        texts.append("a(i) = " + " * ".join(["(b(i) + 1)"] * d))
+        texts.append("a(i) = " + " - ".join(["b(i)"] * d))
+        texts.append("a(i) = " + "".join(["(b(i) * " for _ in range(d)]) + "1" + ")" * d)
     reqs = ["PARSE " + sx(t) for t in texts]
     replies = drv.batch(reqs)
     mism = 0
